@@ -74,8 +74,13 @@ def c19(tier, rng):
         if name.startswith('nested'):
             cli.append(CliCase('scale-script', ['s.bn'], {'s.bn': (src + f'{P} "reached";\n{P} nope;\n{P} "not reached";\n').encode()}, b'', 's.bn', note=name + '+runtime-error'))
             cli.append(CliCase('scale-script', ['s.bn'], {'s.bn': (f'{P} "first";\n' + src + '@\n').encode()}, b'', 's.bn', note=name + '+lexical-error'))
+    # the re-execution programs (vlib/camp_reexec.py) through the executable: what they print and how they end
+    from .camp_reexec import reexec_programs
+    rx = reexec_programs('quick')
+    for name, src in rx:
+        cli.append(CliCase('reexec-script', ['s.bn'], {'s.bn': src.encode()}, b'', 's.bn', note=name))
     rule = (f'{len(names)} script names (every extension shape, directories, missing), 7 argument counts; {len(bodies)} outcome classes (clean, lexical / syntax / runtime error first, middle, last, in a loop, lenient) x 0..3 ইনপুট calls with and without prompt x '
-            f'{len(stdins)} stdin contents (0..4 lines, with/without final newline, CRLF, padded, Unicode blanks); ইনপুট misuse; odd script bytes; {n} random programs; {len(sc)} size-only scripts (deep nesting, long lists, many names), also followed by a runtime / lexical error — all through the real executable, compared with the model on stdout, stderr and status; '
+            f'{len(stdins)} stdin contents (0..4 lines, with/without final newline, CRLF, padded, Unicode blanks); ইনপুট misuse; odd script bytes; {n} random programs; {len(sc)} size-only scripts (deep nesting, long lists, many names), also followed by a runtime / lexical error; {len(rx)} re-execution scripts — all through the real executable, compared with the model on stdout, stderr and status; '
             'on the implementation alone: status 0 iff stderr empty, 65/70 exclusive, stdout silent on 64/65. Non-trivial = every run.')
     return {'cli': cli, 'cases': [], 'rule': rule, 'exhaustive': False, 'cli_oracles': [cli_oracle_c19]}
 
@@ -103,6 +108,7 @@ def c20(tier, rng):
     pool = [
         f'{P} 1 + 2;', '1 + 2;', '"text";', 'nil;', '[1, {a: 2}];', f'{LEN}([1, 2, 3]);', f'{MAX}(3, 9);', f'{VAR} v = 5;', 'v;', 'v = v + 1;', f'{FUN} h() {{ {RET} 7; }}', 'h();',
         '@', '"unterminated', '1 +;', f'{P} (;', f'{VAR} = 3;', 'nope;', '1 / 0;', f'{LEN}(5);', f'{P} [1][4];', f'{LEN} = 5;', f'{LEN} = 5; {LEN}([1]);', f'{MAX} = 0; 1 / {MAX};', f'{P} 1 {P} 2;', '{',
+        '1' + '0' * 400 + ';', '১' + '০' * 400 + ';', f'{P} ' + '৯' * 310 + '.৫;', '/* open', f'{P} "a" + ৫;', f'{VAR} বড় = ' + '৯' * 309 + ';',
         f'{BRK};', f'{RET} 1;', '', '   ', '// comment', f'{IF} ({TRUE}) 3;', f'{VAR} a = 1; {VAR} a = 2;', '1; 2; 3;', f'{WHILE} ({TRUE}) {{ {BRK}; }}', 'x' * 70000 + ';',
     ]
     probes = [f'{LEN}([1, 2, 3]);', f'{MAX}(3, 9);', '1 + 2;', f'{P} "p";', '"s" + 1;']
@@ -137,7 +143,7 @@ def c20(tier, rng):
     # the response to each probe as the first line of a fresh session
     for pr in probes + ['1 + 1;']:
         cli.append(CliCase('fresh-probe', [], {}, (pr + '\n').encode(), None, note=pr))
-    rule = (f'every session of <= {L} lines over a pool of {len(pool) - 1} representative lines (statements, bare expressions of every kind, lexical / syntax / runtime errors, assignments to built-in names, stray signals, blank and comment lines) '
+    rule = (f'every session of <= {L} lines over a pool of {len(pool) - 1} representative lines (statements, bare expressions of every kind, lexical / syntax / runtime errors incl. out-of-range literals in both scripts and an open comment, assignments to built-in names, stray signals, blank and comment lines) '
             f'followed by a probe line that uses only literals and built-ins; {m} random sessions of 4..28 lines; {len(hist)} long histories of failure (thousands of failing lines, lines failing up to {100000 if tier == "thorough" else 40000} calls deep; implementation alone) before each probe; a 70 000-character line; missing final newline, CRLF, empty input. Compared with the model (stdout split at the prompts, stderr, status 0); '
             'on the implementation alone: the probe answers exactly as in a fresh session. Non-trivial = every session.')
     return {'cli': cli, 'cases': [], 'rule': rule, 'exhaustive': True, 'cli_oracles': [cli_oracle_c20], 'cli_timeout': 20}
